@@ -116,8 +116,9 @@ Fixpoint scan_text (m : tmode) (cr : bool) (rf : option bytes) (inp : bytes) {st
               if is_end_tag_for name t then Some ([], inp) else ocons 60 (scan_text m false None t)
           | MRaw name =>
               if is_end_tag_for name t then Some ([], inp)
-              else if beq name script_name && match t with 33 :: 45 :: 45 :: _ => true | _ => false end
-              then None
+              else if beq name script_name
+                      && match strip_ci [33; 45; 45] t with Some _ => true | None => false end
+              then None                   (* "<!--" in script data: escaped states, outside the subset *)
               else ocons 60 (scan_text m false None t)
           end
         else if (c =? 38) && match m with MRaw _ => false | _ => true end then
@@ -340,53 +341,57 @@ Definition classify (n : bytes) : kind :=
 
 Definition drop_lf (s : bytes) : bytes := match s with 10 :: r => r | _ => s end.
 
-(** * one step of the tokenizer in the data state: the tokens of the next construct (a text
-    run, a comment, an end tag, a start tag — for RCDATA / raw-text elements together with
-    their content, as the tree builder would have switched the tokenizer) and the rest *)
+(** * one step of the tokenizer in the data state *)
+(** at a '<' that starts markup: the tokens of this construct (a comment, an end tag, a start
+    tag — for RCDATA / raw-text elements together with their content, as the tree builder would
+    have switched the tokenizer) and the rest *)
+Definition markup_tokens (rest : bytes) : option (list token * bytes) :=
+  match rest with
+  | 60 :: 47 :: t =>
+      match scan_end_tag t with
+      | Some (n, r) => Some ([TEnd n], r)
+      | None => None
+      end
+  | 60 :: 33 :: t =>
+      match scan_bang t with
+      | Some (tok, r) => Some ([tok], r)
+      | None => None
+      end
+  | 60 :: c :: t =>
+      if is_alpha c then
+        let '(n, r0) := scan_tag_name (c :: t) in
+        match scan_attrs AGap [] r0 with
+        | None => None
+        | Some (attrs, r1) =>
+            match classify n with
+            | KRcdata =>
+                match scan_text (MRcdata n) false None r1 with
+                | Some (content, r2) =>
+                    let content := if beq n textarea_name then drop_lf content else content in
+                    Some ([TStart n attrs; TChars content], r2)
+                | None => None
+                end
+            | KRaw =>
+                match scan_text (MRaw n) false None r1 with
+                | Some (content, r2) => Some ([TStart n attrs; TChars content], r2)
+                | None => None
+                end
+            | KUnsupported => None
+            | _ => Some ([TStart n attrs], r1)
+            end
+        end
+      else None                   (* "<?" *)
+  | _ => None
+  end.
+
+(** a text run (possibly consisting of dropped NULs only), or the markup at the head *)
 Definition next_tokens (inp : bytes) : option (list token * bytes) :=
   match scan_text MBody false None inp with
   | None => None
   | Some (txt, rest) =>
       match txt with
       | _ :: _ => Some ([TChars txt], rest)
-      | [] =>
-          match rest with
-          | 60 :: 47 :: t =>
-              match scan_end_tag t with
-              | Some (n, r) => Some ([TEnd n], r)
-              | None => None
-              end
-          | 60 :: 33 :: t =>
-              match scan_bang t with
-              | Some (tok, r) => Some ([tok], r)
-              | None => None
-              end
-          | 60 :: c :: t =>
-              if is_alpha c then
-                let '(n, r0) := scan_tag_name (c :: t) in
-                match scan_attrs AGap [] r0 with
-                | None => None
-                | Some (attrs, r1) =>
-                    match classify n with
-                    | KRcdata =>
-                        match scan_text (MRcdata n) false None r1 with
-                        | Some (content, r2) =>
-                            let content := if beq n textarea_name then drop_lf content else content in
-                            Some ([TStart n attrs; TChars content], r2)
-                        | None => None
-                        end
-                    | KRaw =>
-                        match scan_text (MRaw n) false None r1 with
-                        | Some (content, r2) => Some ([TStart n attrs; TChars content], r2)
-                        | None => None
-                        end
-                    | KUnsupported => None
-                    | _ => Some ([TStart n attrs], r1)
-                    end
-                end
-              else None                   (* "<?" *)
-          | _ => Some ([], rest)          (* end of input (only NULs were left) *)
-          end
+      | [] => if Nat.ltb (length rest) (length inp) then Some ([], rest) else markup_tokens rest
       end
   end.
 
